@@ -6,9 +6,16 @@ package main
 // Verification hooks (build tag verif). verifEvent records one ndjson event per protocol step to the file
 // named by $OWSIM_TRACE (no-op when unset); events get a process-wide sequence number under one mutex,
 // so the file order is a linearisation. $OWSIM_PERTURB=<seed> makes every hook yield or sleep for a
-// random short time first, to shake the goroutine schedule.
+// random short time first, to shake the goroutine schedule.  $OWSIM_SCHEDULE=<file> (one JSON event per line, as
+// produced from the specification) turns every hook into a gate: it returns only when its event is the next one of
+// the schedule, so a chosen interleaving of main loop, model goroutines and writers is forced; after each released
+// event the gate stays shut for a few ms (0.6 s around channel receives and pass-backs, which are followed by a
+// half-second sleep) so that the released goroutine reaches its next hook or blocks.  "load" and "purge" events
+// are not scheduled.  A hook that waits longer than $OWSIM_SCHEDULE_TIMEOUT_S (default 20) ends the process with
+// exit status 97: the schedule was not realisable.
 
 import (
+	"bytes"
 	"encoding/json"
 	"math/rand"
 	"os"
@@ -24,17 +31,58 @@ var (
 	verifSeq  int
 	verifRng  *rand.Rand
 	verifOnce sync.Once
+
+	verifSched        []map[string]interface{}
+	verifSchedPos     int
+	verifSchedReadyAt time.Time
+	verifSchedTimeout = 20 * time.Second
 )
 
 func verifInit() {
 	if fn := os.Getenv("OWSIM_TRACE"); fn != "" && !*writerMode {
 		verifFile, _ = os.Create(fn)
 	}
+	if fn := os.Getenv("OWSIM_SCHEDULE"); fn != "" && !*writerMode {
+		if b, err := os.ReadFile(fn); err == nil {
+			for _, ln := range bytes.Split(b, []byte{'\n'}) {
+				var m map[string]interface{}
+				if len(bytes.TrimSpace(ln)) > 0 && json.Unmarshal(ln, &m) == nil {
+					verifSched = append(verifSched, m)
+				}
+			}
+		}
+		if t, err := strconv.Atoi(os.Getenv("OWSIM_SCHEDULE_TIMEOUT_S")); err == nil && t > 0 {
+			verifSchedTimeout = time.Duration(t) * time.Second
+		}
+	}
 	if s := os.Getenv("OWSIM_PERTURB"); s != "" {
 		if seed, err := strconv.ParseInt(s, 10, 64); err == nil {
 			verifRng = rand.New(rand.NewSource(seed))
 		}
 	}
+}
+
+// verifSchedMatches: the scheduled record names this event (every field of the record equals the hook's argument).
+func verifSchedMatches(want map[string]interface{}, got map[string]interface{}) bool {
+	for k, w := range want {
+		g, ok := got[k]
+		if !ok {
+			return false
+		}
+		switch x := g.(type) {
+		case int:
+			if f, isNum := w.(float64); !isNum || int(f) != x {
+				return false
+			}
+		case string:
+			if s, isStr := w.(string); !isStr || s != x {
+				return false
+			}
+		default:
+			return false
+		}
+	}
+	return true
 }
 
 func verifEvent(ev string, kv ...interface{}) {
@@ -52,14 +100,38 @@ func verifEvent(ev string, kv ...interface{}) {
 			time.Sleep(3 * time.Millisecond)
 		}
 	}
-	if verifFile == nil {
-		return
-	}
 	m := map[string]interface{}{"ev": ev}
 	for i := 0; i+1 < len(kv); i += 2 {
 		m[kv[i].(string)] = kv[i+1]
 	}
+	gated := verifSched != nil && ev != "load" && ev != "purge"
+	if verifFile == nil && !gated {
+		return
+	}
 	verifMu.Lock()
+	if gated {
+		deadline := time.Now().Add(verifSchedTimeout)
+		for verifSchedPos < len(verifSched) && !(verifSchedMatches(verifSched[verifSchedPos], m) && !time.Now().Before(verifSchedReadyAt)) {
+			if time.Now().After(deadline) {
+				os.Stderr.WriteString("OWSIM_SCHEDULE: not realisable: " + ev + " waited at position " + strconv.Itoa(verifSchedPos) + "\n")
+				os.Exit(97)
+			}
+			verifMu.Unlock()
+			time.Sleep(200 * time.Microsecond)
+			verifMu.Lock()
+		}
+		verifSchedPos++
+		pause := 3 * time.Millisecond
+		switch ev {
+		case "wrecv", "mainrecv", "wpassback", "mainpassback":
+			pause = 600 * time.Millisecond
+		}
+		verifSchedReadyAt = time.Now().Add(pause)
+	}
+	if verifFile == nil {
+		verifMu.Unlock()
+		return
+	}
 	verifSeq++
 	m["seq"] = verifSeq
 	b, _ := json.Marshal(m)
